@@ -87,6 +87,13 @@ func genC09(ref core.CaseRef, r *rand.Rand) *c09Case {
 	c.NKeys = len(keys)
 	c.Feed = pick(r, []string{"burst", "burst", "paced", "yield"})
 	c.Buffer = pick(r, []int{4096, 4096, 2, 1})
+	if ref.Index%40 == 7 {
+		// idle gaps longer than the block timeout between windows: a result must not be lost to a stale timeout
+		c.Feed, c.Buffer = "gaps", 4096
+		if len(c.Rows) > 40 {
+			c.Rows = c.Rows[:40]
+		}
+	}
 	sel := []string{}
 	for _, col := range c.Cols {
 		sel = append(sel, col)
@@ -130,6 +137,13 @@ func execC09(ctx *core.Ctx, c *c09Case) {
 	}
 	ro := runOpts{Opts: eng.Opts{WindowOut: c.Buffer}, Expect: expect}
 	switch c.Feed {
+	case "gaps":
+		ro.Opts.BlockTimeout = 30 * time.Millisecond
+		ro.PaceFn = func(i int) {
+			if i%c.N == c.N-1 {
+				time.Sleep(45 * time.Millisecond)
+			}
+		}
 	case "paced":
 		ro.Pace = 50 * time.Microsecond
 	case "yield":
@@ -146,6 +160,13 @@ func execC09(ctx *core.Ctx, c *c09Case) {
 		return
 	}
 	if res.Overloaded {
+		if c.Buffer == 4096 && len(c.Rows) < 4096 {
+			// fewer results than buffer slots: the window output can never have been full, so a dropped
+			// result is not back-pressure but a lost window
+			ctx.Violate(core.Violation{Kind: "counting.result_dropped_without_backpressure", Attrs: attrs,
+				Detail: fmt.Sprintf("the engine counted dropped results/rows (stats %v) although only %d rows were sent into buffers of 4096 slots; %d deliveries seen, %d expected", res.Stats, len(c.Rows), len(res.Dels), expect), Case: c})
+			return
+		}
 		ctx.Inconclusive("engine declared overload")
 		return
 	}
